@@ -41,7 +41,7 @@ def replay(case):
         results.append(r)
         obs.append({"label": "cuts=%s/%s/np2=%d" % ("-".join(map(str, cuts)), "known" if known else "unknown", np2), "res": r, "ord": True, "idx": True})
     scale = rel.finalize(results)
-    msgs = {o["label"]: o["res"].get("msg", "")[:120] for o in obs if not o["res"]["ok"]}
+    msgs = {o["label"]: (o["res"].get("err", "") + ": " + o["res"].get("msg", ""))[:160] for o in obs if not o["res"]["ok"]}
     strip = lambda res: {k: v for k, v in res.items() if k in ("ok", "err", "t")}
     return {"tid": case["tid"], "kind": "query", "q": q, "sc": sc, "scale": scale, "refusals": True, "ref": strip(ref),
             "obs": [dict(o, res=strip(o["res"])) for o in obs], "msgs": msgs}
